@@ -94,6 +94,8 @@ class World:
         self.time_jumps = 0
         self.trace_files = None      # set of filenames for line-level pre-emption
         self.preempt_budget = 0
+        self.hot_funcs = {}
+        self.hot_budget = 0
         self.lock_depth = 0
         # scheduling policy (swarm): 0 sticky, 1 uniform, 2 very sticky
         self.policy = ch.weighted([3, 2, 2], "policy") if policy is None else policy
@@ -148,15 +150,27 @@ class World:
             return self._local_trace
         return None
 
-    def enable_line_preemption(self, files, budget, gap=40):
+    def enable_line_preemption(self, files, budget, gap=40, hot=(), hot_budget=0):
         """Pre-empt at `line` events of the named source files: after a drawn number of
-        traced lines the running actor is forced to yield, `budget` times per run."""
+        traced lines the running actor is forced to yield, `budget` times per run.  `hot` names
+        functions (co_name) inside which every line event is a drawn pre-emption chance of its own
+        (1 in 3, at most `hot_budget` times per run): short critical regions - a loop over a shared
+        table, a check-then-act pair - that a uniform countdown over thousands of lines almost never hits."""
         self.trace_files = set(files)
         self.preempt_budget = budget
         self._gap = gap
         self._countdown = 1 + self.ch.draw(gap, "preempt_gap") if budget > 0 else 0
+        self.hot_funcs = {name: hot_budget for name in hot}     # budget per function
+        self.hot_budget = hot_budget if hot else 0
 
     def _local_trace(self, frame, event, arg):
+        if event == "line" and self.hot_budget > 0 and not self._abort and frame.f_code.co_name in self.hot_funcs:
+            a = current_actor()
+            if a is not None and a.preempt_ok and self.hot_funcs[frame.f_code.co_name] > 0 and self.ch.draw(3, "hot_preempt") == 2:
+                self.hot_funcs[frame.f_code.co_name] -= 1
+                self.stats["line_preemptions_hot"] += 1
+                self.yield_point(f"preempt-hot@{frame.f_code.co_name}:{frame.f_lineno}", force_switch=True, prefer_callers=True)
+                return self._local_trace
         if event == "line" and self.preempt_budget > 0 and not self._abort:
             a = current_actor()
             if a is not None and a.preempt_ok:
@@ -169,7 +183,7 @@ class World:
         return self._local_trace
 
     # ----------------------------------------------------------- yield API
-    def yield_point(self, kind, force_switch=False):
+    def yield_point(self, kind, force_switch=False, prefer_callers=False):
         a = current_actor()
         if a is None:
             return
@@ -178,6 +192,7 @@ class World:
         a.state = "runnable"
         a.desc = kind
         self._forced = force_switch
+        self._prefer_callers = prefer_callers
         self._sched_sem.release()
         a.sem.acquire()
         if self._abort:
@@ -295,10 +310,20 @@ class World:
                 if a is not cur or self._forced:
                     if a not in cands:
                         cands.append(a)
+            hot_switch = False
+            if self._forced and getattr(self, "_prefer_callers", False):
+                # pre-emption inside a hot region: the interesting successor is an application thread that is
+                # about to enter the code under test, not one more loop iteration or a network delivery
+                callers = [a for a in cands if a.kind == "caller"]
+                if callers:
+                    cands, pseudo, hot_switch = callers, [], True
+            self._prefer_callers = False
             n_act = len(cands)
             cands.extend(pseudo)
             if len(cands) == 1:
                 pick = 0
+            elif hot_switch:
+                pick = self.ch.draw(len(cands), "sched")
             elif self.policy == 1:
                 pick = self.ch.draw(len(cands), "sched")
             else:
